@@ -222,7 +222,22 @@ fn uni_point(ents: &[TypeEntry], c: &UniCase, obs: &mut Obs) -> PropResult {
                     continue;
                 }
                 let r = (hi[i] - lo[i]).abs().max(hi[i].abs()).max(1e-3);
-                ensure!(s[i] >= lo[i] - tol * r * 4.0 && s[i] <= hi[i] + tol * r * 4.0, "{}: sampled component {} = {} outside [{}, {}] (ends {:?} / {:?}, inclusive = {})", e.name, i, s[i], lo[i], hi[i], lo, hi, c.inclusive);
+                let inside = s[i] >= lo[i] - tol * r * 4.0 && s[i] <= hi[i] + tol * r * 4.0;
+                if let (false, Shape::Bicone { height, scale, .. }) = (inside, e.shape) {
+                    if i == height {
+                        // The bicone samplers map the height h to 1 + 4 (h - 1)^3 (resp. 4 h^3): next to a tip that is
+                        // 1 - tiny and loses the end point to rounding. How far a sample can overshoot an end that is
+                        // x away from the tip: the whole of x once 4 x^3 < eps, eps / (12 x^2) before that.
+                        let eps = if is32 { f32::EPSILON as f64 } else { f64::EPSILON };
+                        let (end, over) = if s[i] > hi[i] { (hi[i], s[i] - hi[i]) } else { (lo[i], lo[i] - s[i]) };
+                        let x = (end / scale).min(1.0 - end / scale).max(0.0);
+                        let bound = x.min(eps / (6.0 * x * x)) + tol * 4.0;
+                        if over / scale <= bound {
+                            pv::fail_keyed!("C19:bicone-end-lost-near-tip", "{}: sampled height {} outside [{}, {}] by {:e}: the end is {:e} from a tip of the bicone, where the sampler's cube loses it to rounding", e.name, s[i], lo[i], hi[i], over, x * scale);
+                        }
+                    }
+                }
+                ensure!(inside, "{}: sampled component {} = {} outside [{}, {}] (ends {:?} / {:?}, inclusive = {})", e.name, i, s[i], lo[i], hi[i], lo, hi, c.inclusive);
             }
         }
         if let Some(h) = hidx {
